@@ -139,8 +139,7 @@ def tree_nodes(root):
         pathof[id(node)] = ps
         if isinstance(node, (ast.expr_context,)):
             continue
-        if in_ftstr(root.a, path):
-            continue
+        # f-string internals are observed too (edits inside replacement fields, self-documenting fields)
         out.append((ps, node, path))
     out.sort(key=lambda t: t[0])
     return out, pathof
